@@ -267,6 +267,74 @@ fn main() {
                 d.exec(&json!({"op": "reset"}));
             }
         }
+        "enum" => {
+            // bounded-exhaustive histories: every sequence of `depth` operations over a small
+            // alphabet (2 components, 2 worlds), each from a fresh world; `modulus`/`residue`
+            // select a slice of the enumeration
+            let depth: usize = args[2].parse().unwrap();
+            let modulus: usize = args[3].parse().unwrap();
+            let residue: usize = args[4].parse().unwrap();
+            let out = BufWriter::new(File::create(&args[5]).unwrap());
+            let mut d = Driver::new(Box::new(out));
+            d.wal = Some(format!("{}.cur", &args[5]));
+            let v = [7u32, 11, 13, 17, 19];
+            let alphabet: Vec<Value> = vec![
+                json!({"op": "insert", "w": 1, "order": [2], "vals": v}),
+                json!({"op": "insert", "w": 1, "order": [3], "vals": v}),
+                json!({"op": "insert", "w": 1, "order": [3, 2], "vals": v}),
+                json!({"op": "insert", "w": 1, "order": [], "vals": v}),
+                json!({"op": "extend", "w": 1, "order": [2], "rows": [], "extra": 0}),
+                json!({"op": "extend", "w": 1, "order": [2], "rows": [v, v], "extra": 1}),
+                json!({"op": "extend", "w": 1, "order": [2, 3], "rows": [v], "extra": 0}),
+                json!({"op": "remove", "w": 1, "e": {"k": 1}}),
+                json!({"op": "remove", "w": 1, "e": {"k": 2}}),
+                json!({"op": "remove", "w": 1, "e": {"k": 3}}),
+                json!({"op": "add", "w": 1, "e": {"k": 1}, "c": 2, "v": 5}),
+                json!({"op": "add", "w": 1, "e": {"k": 2}, "c": 3, "v": 5}),
+                json!({"op": "remc", "w": 1, "e": {"k": 1}, "c": 2}),
+                json!({"op": "remc", "w": 1, "e": {"k": 2}, "c": 3}),
+                json!({"op": "clear", "w": 1}),
+                json!({"op": "shrink", "w": 1}),
+                json!({"op": "reserve", "w": 1, "order": [3], "n": 2}),
+                json!({"op": "clone", "w": 1, "dst": 2}),
+                json!({"op": "serde", "w": 1, "dst": 2, "enc": "tok_bin"}),
+                json!({"op": "clone_from", "w": 1, "src": 2}),
+                json!({"op": "clone_from", "w": 2, "src": 1}),
+                json!({"op": "insert", "w": 2, "order": [2, 3], "vals": v}),
+                json!({"op": "remove", "w": 2, "e": {"k": 1}}),
+            ];
+            let a = alphabet.len();
+            let total = a.pow(depth as u32);
+            let mut idx = residue;
+            while idx < total {
+                let mut x = idx;
+                let mut seq = Vec::new();
+                for _ in 0..depth {
+                    seq.push(alphabet[x % a].clone());
+                    x /= a;
+                }
+                // skip sequences that use world 2 before it exists (or copy into a live world)
+                let mut live2 = false;
+                let mut ok = true;
+                for op in seq.iter() {
+                    let name = op["op"].as_str().unwrap();
+                    let uses2 = op["w"] == 2 || op.get("src").map(|s| s == 2).unwrap_or(false);
+                    let makes2 = op.get("dst").map(|s| s == 2).unwrap_or(false);
+                    if uses2 && !live2 { ok = false; break; }
+                    if makes2 && live2 { ok = false; break; }
+                    if makes2 { live2 = true; }
+                    let _ = name;
+                }
+                if ok {
+                    d.exec(&json!({"op": "new", "w": 1, "vals": [1, 2, 3]}));
+                    for op in seq.iter() {
+                        if !d.exec(op) { break; }
+                    }
+                    d.exec(&json!({"op": "reset"}));
+                }
+                idx += modulus;
+            }
+        }
         _ => panic!("usage"),
     }
 }
